@@ -142,6 +142,16 @@ def check_model(tool, seed, idx, known, n_repro=4, mode="C"):
         posn = p
     info["look_alike"] = any(any(x in f for x in ("Vtbl", "RetTmp", "Container", "Context", "CGlue")) for (_, f) in model.foreign)
     info["two_ctx"] = len(set(i.ctx for i in model.insts)) >= 2
+    info["sized_rettmp"] = any(getattr(t, "rettmp_sized", False) for t in model.traits.values())
+    info["suffix_names"] = any(a != b and a.endswith(b) for a in model.traits for b in model.traits)
+    # every sized temporary-return field must still be in its container
+    for inst in model.insts:
+        x = hdr.CTX_TY[inst.ctx].mangle()
+        for t in hdr.inst_traits(model, inst):
+            if getattr(model.traits[t], "rettmp_sized", False):
+                fld = f"struct {t}RetTmp_{x} ret_tmp" + (";" if inst.kind == "obj" else f"_{t.lower()};")
+                if fld not in out and not any(v["key"] == "C18:sized-rettmp-field-lost" for v in viol):
+                    viol.append({"prop": "C18", "key": "C18:sized-rettmp-field-lost", "what": f"the container of {inst.kind} {inst.name} ({inst.cont}, {inst.ctx}) no longer has its field `{fld}` (the temporary-return storage of trait {t} is not zero-sized)"})
     # ---- C17 execution
     if not errs:
         drv, plan = hdr.c_driver(model, out)
